@@ -331,6 +331,43 @@ func (c *Ctx) confinementAndPublication() {
 		}
 		return false
 	}
+	// what teardown calls before the join runs next to the connection's goroutines: functions reachable from those
+	// calls are one more thread as far as confinement goes
+	preJoin := map[*ssa.Function]bool{}
+	{
+		waits := c.calls(r.Stop, "sync", "WaitGroup", "Wait")
+		var walkPre func(f *ssa.Function, d int)
+		walkPre = func(f *ssa.Function, d int) {
+			if f == nil || preJoin[f] || f == r.Stop || !c.P.InLib(f) || d > 6 {
+				return
+			}
+			preJoin[f] = true
+			if n := c.P.CG.Nodes[f]; n != nil {
+				for _, e := range n.Out {
+					if _, isGo := e.Site.(*ssa.Go); !isGo {
+						walkPre(e.Callee.Func, d+1)
+					}
+				}
+			}
+		}
+		for _, call := range ir.Calls(r.Stop) {
+			after := false
+			for _, w := range waits {
+				if ir.Before(w, call) {
+					after = true
+				}
+			}
+			if after || len(waits) == 0 {
+				continue
+			}
+			if _, isDefer := call.(*ssa.Defer); isDefer {
+				continue
+			}
+			for _, callee := range c.P.Callees(call) {
+				walkPre(callee, 0)
+			}
+		}
+	}
 	// monitor roles for buffer / sequence fields
 	mons := locks.FindMonitors(c.P, c.Locks(), c.Effects())
 	var buf *locks.Monitor
@@ -424,6 +461,9 @@ func (c *Ctx) confinementAndPublication() {
 			}
 			for _, rn := range c.rootsReachingAvoiding(a.Fn, r.Stop) {
 				roots[rn] = true
+			}
+			if preJoin[a.Fn] {
+				roots["teardown before the join"] = true
 			}
 		}
 		var rs []string
